@@ -288,4 +288,14 @@ func (s *Star) Process(raw []byte, in Ingress) (res Result) {
 	return
 }
 
+// Fork returns a fixture on the SAME data plane with a packet processor and a
+// packet buffer of its own, as another processor goroutine of the router has.
+// Forks may be used concurrently with each other and with s.
+func (s *Star) Fork() *Star {
+	t := *s
+	t.Proc = router.VerifNewProc(s.C)
+	t.pkt = nil
+	return &t
+}
+
 func iface16(id uint16) iface.ID { return iface.ID(id) }
